@@ -234,7 +234,15 @@ impl Rollback {
         //
         // UNWRAP: `prev` returns `None` iff the record ID is nil. We know that `earliest_record_id`
         //         can't be nil because there were some elements in the log that we removed.
-        let new_end_live = earliest_record_id.prev().unwrap();
+        //
+        // If nothing is left in the log the live range becomes empty (nil). The record preceding
+        // the earliest removed one is not live in that case (it may already have been pruned from
+        // disk), so it must not become the new end of the range.
+        let new_end_live = if in_memory.log.is_empty() {
+            RecordId::nil()
+        } else {
+            earliest_record_id.prev().unwrap()
+        };
 
         // Set pending truncate to the new end live.
         //
@@ -259,20 +267,12 @@ impl Rollback {
 
         // NOTE: for now, if there is a pending truncate, we ignore everything else.
         if let Some(pending_truncate) = pending_truncate {
-            let live_start = seglog.live_range().0 .0;
-            // If every live record is rolled back the log becomes empty. The record preceding the
-            // live range is not live (it may already have been pruned from disk), so it must not
-            // become the new end of the range.
-            let (rollback_start_live, rollback_end_live) = if pending_truncate < live_start {
-                (0, 0)
-            } else {
-                (live_start, pending_truncate)
-            };
+            let rollback_start_live = std::cmp::min(seglog.live_range().0 .0, pending_truncate);
             return WriteoutData {
                 rollback_start_live,
-                rollback_end_live,
+                rollback_end_live: pending_truncate,
                 prune_to_new_start_live: None,
-                prune_to_new_end_live: Some(rollback_end_live),
+                prune_to_new_end_live: Some(pending_truncate),
             };
         }
 
